@@ -57,6 +57,10 @@ type View struct {
 	Actions      map[uint32]map[string]VAction
 	Assets       map[uint32]VAsset
 	Inapplicable []Inapp
+	// Uncertain: components the client updated blindly (it sent an update for a component it
+	// had not been told about; whether it took effect depends on requests of others it cannot
+	// see). Excluded from the comparison until a list answer refreshes the type.
+	Uncertain map[CKey]bool
 }
 
 type Inapp struct {
@@ -76,6 +80,7 @@ func (v *View) reset() {
 	v.Components = map[CKey]string{}
 	v.Actions = map[uint32]map[string]VAction{}
 	v.Assets = map[uint32]VAsset{}
+	v.Uncertain = nil
 }
 
 func vaction(a *vikjapb.EntityAction) VAction {
@@ -176,6 +181,7 @@ func (v *View) apply(m *RecvMsg) {
 		}
 		if _, ok := v.Entities[k.Entity]; !ok {
 			v.inapp(m, "component-of-unknown-entity", k.Type, "component %v", k)
+			return // a client cannot attach anything to an entity it does not know
 		}
 		v.Components[k] = string(c.GetData())
 	case *hagallpb.EntityComponentDeleteBroadcast:
@@ -200,6 +206,7 @@ func (v *View) apply(m *RecvMsg) {
 		a := x.GetEntityAction()
 		if _, ok := v.Entities[a.GetEntityId()]; !ok {
 			v.inapp(m, "action-of-unknown-entity", 0, "entity %d", a.GetEntityId())
+			return
 		}
 		if v.Actions[a.GetEntityId()] == nil {
 			v.Actions[a.GetEntityId()] = map[string]VAction{}
@@ -209,6 +216,7 @@ func (v *View) apply(m *RecvMsg) {
 		a := x.GetAssetInstance()
 		if _, ok := v.Entities[a.GetEntityId()]; !ok {
 			v.inapp(m, "asset-of-unknown-entity", 0, "entity %d", a.GetEntityId())
+			return
 		}
 		v.Assets[a.GetEntityId()] = vasset(a)
 	}
@@ -216,6 +224,11 @@ func (v *View) apply(m *RecvMsg) {
 
 // RefreshType replaces the view's components of one type by a list response.
 func (v *View) RefreshType(typ uint32, list []*hagallpb.EntityComponent) {
+	for k := range v.Uncertain {
+		if k.Type == typ {
+			delete(v.Uncertain, k)
+		}
+	}
 	for k := range v.Components {
 		if k.Type == typ {
 			delete(v.Components, k)
@@ -281,6 +294,11 @@ func (v *View) applyOwnUnanswered(req any) {
 		k := CKey{q.EntityComponentTypeId, q.EntityId}
 		if _, ok := v.Components[k]; ok {
 			v.Components[k] = string(q.Data)
+		} else {
+			if v.Uncertain == nil {
+				v.Uncertain = map[CKey]bool{}
+			}
+			v.Uncertain[k] = true
 		}
 	}
 }
